@@ -54,6 +54,24 @@ def run(chk):
                           "replay: printf 'query\\t%s\\t\\tstring(%%2Fr)\\tstring(%%2Fr%%2F%%40t)\\n' | harness/target/debug/xmlrs-driver\n"
                           % (lib.enc(t), a, want, lib.enc(t).replace("%", "%%")))
             mfail.append((t, a, "ok", "ok"))
+    # ---- the reviewed grammar as reference: whatever it derives (and the model's well-formedness checks pass) must be accepted
+    refs = X.reference_stream(rng, 1200 if thorough else 300, 500 if thorough else 150)
+    ref_ok = 0
+    for t, a, b in refs:
+        chk.count(["ref", t], nontrivial=b == "ok")
+        ref_ok += b == "ok"
+        if b == "ok" and a != "ok":
+            chk.violation("refused_%s" % lib.enc(t)[:50],
+                          "property C01: a document that the reviewed grammar (tools/ref/xml.json, the grammar as last read against "
+                          "XML 1.0 / Namespaces in XML) derives and that passes the well-formedness checks is not accepted\n"
+                          "input (percent-encoded): %s\nimplementation: %s   reviewed grammar: %s\n"
+                          "productions that differ from the reviewed grammar now: %s\n"
+                          "replay: printf 'accept\\t%s\\n' | harness/target/debug/xmlrs-driver\n"
+                          % (lib.enc(t), a, b, [d[0] for d in lib.GRAMMAR_DIFFS["xml"]], lib.enc(t).replace("%", "%%")))
+            mfail.append((t, a, "ok", "ok"))
+        elif a != b and not (a == "ok" and b != "ok"):
+            tdis.append((t, a, b))
+    chk.cov["reviewed_grammar_stream"] = "%d inputs, %d derivable and well-formed" % (len(refs), ref_ok)
     narrow = [w for w in X.class_table_search(tabs) if w[3] and not w[2] and w[5] != "ok"]
     for key, cp, _, _, text, out in narrow:
         chk.violation("class_%s_%X" % (key, cp),
